@@ -26,6 +26,10 @@
                                    every aggregate of a row over every event list: the MultiValue is the fold of the events' row
                                    updates; (set,min)/(set,max) = running min/max over the accepted values addressed to the row,
                                    Σ squares additive, unique set = inserted hashes (duplicate-free), TDigest flag monotone
+    legacy_eq_default, valuesFn_delta, evFn_congr, legacy_rows_eq_default, evFn_td_values_legacy
+                                   Config.LegacyApplyValues: ApplyValuesLegacy adds the same count/sum/min/max/squares as ApplyValues
+                                   for every row and argument; over every event list both modes record the same rows up to the
+                                   TDigest flag; all row theorems hold in both modes (cfg.legacy)
     applyEvent_status_row, applyAll_status_row(H), clampHit_code
                                    every status row (ok, warnings, errors, clamped-future) over every event list
     rejected_status_store, rejected_primary_record, accepted_ok_record, accepted_no_error_status,
@@ -653,6 +657,41 @@ theorem mvApplyValues_delta (pct : Bool) (vals : List (Rat × Rat)) (count total
   simp only [this, if_false]
   split <;> exact hm
 
+theorem mvApplyValuesLegacy_delta (pct : Bool) (vals : List (Rat × Rat)) (count total : Rat) (mv : MV)
+    (hnn : 0 ≤ mv.cnt) (hc : 0 < count) (ht : 0 < total) (hne : vals ≠ []) :
+    (mvApplyValuesLegacy pct vals count total mv).cnt = mv.cnt + count ∧
+    (mvApplyValuesLegacy pct vals count total mv).sum = mv.sum + wsum vals * count / total := by
+  have ht' : total ≠ 0 := ne_of_gt ht
+  obtain ⟨t1, t2, t3⟩ := tmpOf_spec count vals
+  obtain ⟨s1, s2, s3⟩ := scale_spec count total (tmpOf count vals) ht'
+  have hset : (scale count total (tmpOf count vals)).set = true := by
+    rw [s3, t3]; cases vals with
+    | nil => exact absurd rfl hne
+    | cons _ _ => rfl
+  have hm : (mvMerge mv (scale count total (tmpOf count vals))).cnt = mv.cnt + count ∧
+      (mvMerge mv (scale count total (tmpOf count vals))).sum = mv.sum + wsum vals * count / total := by
+    unfold mvMerge
+    simp only [hset, Bool.not_true, Bool.false_eq_true, if_false]
+    refine ⟨?_, ?_⟩
+    · show (addCount _ mv).cnt = _
+      rw [s2, t2]; exact addCount_cnt _ _ hc hnn
+    · show (addCount _ mv).sum + _ = _
+      rw [s1, t1]; unfold addCount; split <;> [skip; split] <;> rfl
+  unfold mvApplyValuesLegacy
+  have : ¬ total ≤ 0 := by linarith
+  simp only [this, if_false]
+  split <;> exact hm
+
+/-- both value-application modes add the same count and sum -/
+theorem valuesFn_delta (lg pct : Bool) (vals : List (Rat × Rat)) (count total : Rat) (mv : MV)
+    (hnn : 0 ≤ mv.cnt) (hc : 0 < count) (ht : 0 < total) (hne : vals ≠ []) :
+    (valuesFn lg pct vals count total mv).cnt = mv.cnt + count ∧
+    (valuesFn lg pct vals count total mv).sum = mv.sum + wsum vals * count / total := by
+  unfold valuesFn
+  split
+  · exact mvApplyValuesLegacy_delta pct vals count total mv hnn hc ht hne
+  · exact mvApplyValues_delta pct vals count total mv hnn hc ht hne
+
 /-- absent counter: one event per value, or the histogram weight -/
 theorem absent_counter_count (total : Rat) : effCount 0 total = total := by simp [effCount]
 
@@ -711,7 +750,7 @@ theorem values_effect_is_weighting (cfg : Cfg) (s : Store × EvKey) (sh drop : N
     (hpos : 0 < effCount c.toRat (histTotal values hist)) :
     runEffect cfg s (.values sh drop hist values c) =
       shardApply cfg s.1 s.2 sh drop
-        (mvApplyValues cfg.metric.pct (valuePairs values hist) (effCount c.toRat (histTotal values hist)) (histTotal values hist)) := by
+        (valuesFn cfg.legacy cfg.metric.pct (valuePairs values hist) (effCount c.toRat (histTotal values hist)) (histTotal values hist)) := by
   have : ¬ effCount c.toRat (histTotal values hist) ≤ 0 := by linarith
   simp [runEffect, this]
 
@@ -1064,18 +1103,18 @@ theorem payload_eq (cfg : Cfg) (e : Event) : payload cfg e = both cfg (payEffect
 def uniqPairs (hashes : List Int) : List (Rat × Rat) := hashes.map (fun (h : Int) => ((h : Rat), (1 : Rat)))
 
 /-- what the row update of an event is, `none` when the shard returns before touching anything (`count <= 0`) -/
-def payFn (pct : Bool) (e : Event) : Option (MV → MV) :=
+def payFn (lg pct : Bool) (e : Event) : Option (MV → MV) :=
   if e.uniq.length ≠ 0 then
     (if effCount e.counter.toRat (e.uniq.length : Rat) ≤ 0 then none
      else some (mvApplyUnique e.uniq (effCount e.counter.toRat (e.uniq.length : Rat))))
   else if e.hist.length + e.values.length ≠ 0 then
     (if effCount e.counter.toRat (histTotal e.values e.hist) ≤ 0 then none
-     else some (mvApplyValues pct (valuePairs e.values e.hist) (effCount e.counter.toRat (histTotal e.values e.hist)) (histTotal e.values e.hist)))
+     else some (valuesFn lg pct (valuePairs e.values e.hist) (effCount e.counter.toRat (histTotal e.values e.hist)) (histTotal e.values e.hist)))
   else (if e.counter.toRat ≤ 0 then none else some (addCount e.counter.toRat))
 
 theorem runEffect_pay (cfg : Cfg) (s : Store × EvKey) (e : Event) (sh drop : Nat) :
     runEffect cfg s (payEffect e sh drop) =
-      match payFn cfg.metric.pct e with
+      match payFn cfg.legacy cfg.metric.pct e with
       | none => s
       | some f => shardApply cfg s.1 s.2 sh drop f := by
   unfold payEffect payFn
@@ -1132,8 +1171,8 @@ theorem addCount_adds (c : Rat) (hc : 0 < c) : Adds (addCount c) c 0 := by
   unfold addCount; split <;> [skip; split] <;> simp
 
 /-- the row update of an event adds exactly `evDelta` -/
-theorem payFn_adds (pct : Bool) (e : Event) :
-    match payFn pct e with
+theorem payFn_adds (lg pct : Bool) (e : Event) :
+    match payFn lg pct e with
     | none => evDelta e = (0, 0)
     | some f => Adds f (evDelta e).1 (evDelta e).2 := by
   unfold payFn evDelta
@@ -1162,10 +1201,10 @@ theorem payFn_adds (pct : Bool) (e : Event) :
         by_cases ht : histTotal e.values e.hist ≤ 0
         · simp only [if_pos ht]
           intro mv _
-          simp [mvApplyValues, ht]
+          unfold valuesFn; split <;> simp [mvApplyValues, mvApplyValuesLegacy, ht]
         · simp only [if_neg ht]
           intro mv hmv
-          exact mvApplyValues_delta pct _ _ _ mv hmv (by linarith) (by linarith) (valuePairs_ne_nil _ _ hv)
+          exact valuesFn_delta lg pct _ _ _ mv hmv (by linarith) (by linarith) (valuePairs_ne_nil _ _ hv)
     · simp only [if_neg hv]
       by_cases hc : e.counter.toRat ≤ 0
       · simp only [if_pos hc]
@@ -1191,6 +1230,16 @@ theorem mvApplyUnique_nonneg (hashes : List Int) (count : Rat) (mv : MV) (h : 0 
   · exact h
   · exact mvMerge_nonneg _ _ h
 
+theorem valuesFn_nonneg (lg pct : Bool) (vals : List (Rat × Rat)) (count total : Rat) (mv : MV) (h : 0 ≤ mv.cnt) :
+    0 ≤ (valuesFn lg pct vals count total mv).cnt := by
+  unfold valuesFn
+  split
+  · unfold mvApplyValuesLegacy
+    split
+    · exact h
+    · simp only; split <;> exact mvMerge_nonneg _ _ h
+  · exact mvApplyValues_nonneg _ _ _ _ mv h
+
 /-- every shard call keeps all counts non-negative -/
 theorem runEffect_NN (cfg : Cfg) (s : Store × EvKey) (x : Effect) (h : NN s.1) : NN (runEffect cfg s x).1 := by
   cases x with
@@ -1202,7 +1251,7 @@ theorem runEffect_NN (cfg : Cfg) (s : Store × EvKey) (x : Effect) (h : NN s.1) 
   | values sh drop hist values c =>
     simp only [runEffect]; split
     · exact h
-    · exact shardApply_NN _ _ _ _ _ _ (fun mv hmv => mvApplyValues_nonneg _ _ _ _ mv hmv) h
+    · exact shardApply_NN _ _ _ _ _ _ (fun mv hmv => valuesFn_nonneg _ _ _ _ _ mv hmv) h
   | unique sh drop hashes c =>
     simp only [runEffect]; split
     · exact h
@@ -1318,9 +1367,9 @@ theorem payload_get (cfg : Cfg) (e : Event) (st : Store) (a : Addr) (ha : UserAd
     (getMV ((payload cfg e).foldl (runEffect cfg) (st, evKey cfg e)).1 a).cnt = (getMV st a).cnt + hits cfg e a * (evDelta e).1 ∧
     (getMV ((payload cfg e).foldl (runEffect cfg) (st, evKey cfg e)).1 a).sum = (getMV st a).sum + hits cfg e a * (evDelta e).2 := by
   rw [payload_eq]
-  have hp := payFn_adds cfg.metric.pct e
+  have hp := payFn_adds cfg.legacy cfg.metric.pct e
   unfold hits
-  cases hf : payFn cfg.metric.pct e with
+  cases hf : payFn cfg.legacy cfg.metric.pct e with
   | none =>
     rw [hf] at hp
     have hid : ∀ s sh drop, runEffect cfg s (payEffect e sh drop) = s := by
@@ -1645,7 +1694,7 @@ theorem payload_get_status (cfg : Cfg) (e : Event) (s : Store × EvKey) (a : Add
       getMV (runEffect cfg s (payEffect e sh drop)).1 a = getMV s.1 a ∧ (runEffect cfg s (payEffect e sh drop)).2.metric = s.2.metric := by
     intro s sh drop hm
     rw [runEffect_pay]
-    cases payFn cfg.metric.pct e with
+    cases payFn cfg.legacy cfg.metric.pct e with
     | none => exact ⟨rfl, rfl⟩
     | some f => exact ⟨shardApply_get_status _ _ _ _ _ _ _ hm hc, by rw [shardApply_key]; rfl⟩
   rcases both_cases cfg (payEffect e) with ⟨_, hb⟩ | ⟨s2, _, _, hb⟩
@@ -1835,11 +1884,11 @@ theorem zeroWeight_hist_len (e : Event) (h : ZeroWeightHist e) : e.hist.length +
 theorem zeroWeight_counter_absent (cfg : Cfg) (st : Store) (e : Event) (wf : WF e) (h : ZeroWeightHist e)
     (hp : e.pre = 0) (hm : e.hasMeta = true) (hs : shardOk cfg = true) (ht : ∀ t ∈ e.tags, TagValid t)
     (hc : e.counter = .fin 0) :
-    verdict cfg e = 0 ∧ payFn cfg.metric.pct e = none ∧ (applyEvent cfg st e).filter keep = st.filter keep := by
+    verdict cfg e = 0 ∧ payFn cfg.legacy cfg.metric.pct e = none ∧ (applyEvent cfg st e).filter keep = st.filter keep := by
   have hv : verdict cfg e = 0 :=
     zeroWeight_accepted cfg e wf h hp hm hs ht (by rw [hc]; exact ⟨0, rfl, le_refl _, le_of_lt maxF_pos⟩)
   have hu : e.uniq.length = 0 := by rw [h.2.1]; rfl
-  have hpf : payFn cfg.metric.pct e = none := by
+  have hpf : payFn cfg.legacy cfg.metric.pct e = none := by
     unfold payFn
     simp only [hu, ne_eq, not_true_eq_false, if_false, zeroWeight_hist_len e h, not_false_eq_true, if_true,
       zeroWeight_total e h, hc, XR.toRat, effCount, le_refl]
@@ -1935,7 +1984,7 @@ theorem zeroWeight_counter_present (cfg : Cfg) (e : Event) (wf : WF e) (h : Zero
     simp only [hu, ne_eq, not_true_eq_false, if_false, zeroWeight_hist_len e h, not_false_eq_true, if_true,
       zeroWeight_total e h, hc, XR.toRat, effCount, hcne, hcle, le_refl]
   refine ⟨hv, ?_, ?_⟩
-  · have hpf : payFn cfg.metric.pct e = some (mvApplyValues cfg.metric.pct (valuePairs e.values e.hist) c 0) := by
+  · have hpf : payFn cfg.legacy cfg.metric.pct e = some (valuesFn cfg.legacy cfg.metric.pct (valuePairs e.values e.hist) c 0) := by
       unfold payFn
       simp only [hu, ne_eq, not_true_eq_false, if_false, zeroWeight_hist_len e h, not_false_eq_true, if_true,
         zeroWeight_total e h, hc, XR.toRat, effCount, hcne, hcle]
@@ -1945,7 +1994,7 @@ theorem zeroWeight_counter_present (cfg : Cfg) (e : Event) (wf : WF e) (h : Zero
     simp only []
     rw [heff, List.foldl_append, payload_eq]
     have hrun : ∀ s sh drop, runEffect cfg s (payEffect e sh drop) = shardApply cfg s.1 s.2 sh drop
-        (mvApplyValues cfg.metric.pct (valuePairs e.values e.hist) c 0) := by
+        (valuesFn cfg.legacy cfg.metric.pct (valuePairs e.values e.hist) c 0) := by
       intro s sh drop; rw [runEffect_pay, hpf]
     have hpre : ∀ x ∈ statusBoth cfg (ktGetI (header cfg.mapping e).ktags 0) cfg.metric.id stOKCached (header cfg.mapping e).statusTagKey "-" ++
         warnings cfg (header cfg.mapping e) (ktGetI (header cfg.mapping e).ktags 0) cfg.metric.id, IsBuiltinStatus x := by
@@ -1959,7 +2008,7 @@ theorem zeroWeight_counter_present (cfg : Cfg) (e : Event) (wf : WF e) (h : Zero
     have hkey : s1.2.metric = cfg.metric.id := by
       rw [← hs1, foldl_status_key cfg _ _ hpre]; exact hkm
     have hfirst : HasMetric (shardApply cfg s1.1 s1.2 (shard1 cfg) 0
-        (mvApplyValues cfg.metric.pct (valuePairs e.values e.hist) c 0)).1 cfg.metric.id := by
+        (valuesFn cfg.legacy cfg.metric.pct (valuePairs e.values e.hist) c 0)).1 cfg.metric.id := by
       rw [← hkey]; exact shardApply_has cfg s1.1 s1.2 (shard1 cfg) _
     rcases both_cases cfg (payEffect e) with ⟨_, hb⟩ | ⟨s2, _, _, hb⟩
     · simp only [hb, List.foldl_cons, List.foldl_nil, hrun]
@@ -2109,8 +2158,8 @@ example : shard1 (effCfg { exCfg with metric := { exCfg.metric with strategy := 
 /-! ### all aggregates of a row, over all event lists -/
 
 /-- the row update of one event (identity when the shard returns before touching anything) -/
-def evFn (pct : Bool) (e : Event) (mv : MV) : MV :=
-  match payFn pct e with
+def evFn (lg pct : Bool) (e : Event) (mv : MV) : MV :=
+  match payFn lg pct e with
   | none => mv
   | some f => f mv
 
@@ -2139,13 +2188,13 @@ theorem two_iter (f : MV → MV) (x : MV) (b1 b2 : Prop) [Decidable b1] [Decidab
 
 theorem payload_getMV (cfg : Cfg) (e : Event) (st : Store) (a : Addr) (ha : UserAddr a) :
     getMV ((payload cfg e).foldl (runEffect cfg) (st, evKey cfg e)).1 a =
-      (evFn cfg.metric.pct e)^[(if a = addr1 cfg e then 1 else 0) +
+      (evFn cfg.legacy cfg.metric.pct e)^[(if a = addr1 cfg e then 1 else 0) +
         (match shard2 cfg with
           | some s2 => if ¬ applyDropped cfg (keyAfter cfg (evKey cfg e)) cfg.metric.shard2Ts ∧ a = addr2 cfg e s2 then 1 else 0
           | none => 0)] (getMV st a) := by
   rw [payload_eq]
   unfold evFn
-  cases hf : payFn cfg.metric.pct e with
+  cases hf : payFn cfg.legacy cfg.metric.pct e with
   | none =>
     have hid : ∀ s sh drop, runEffect cfg s (payEffect e sh drop) = s := by
       intro s sh drop; rw [runEffect_pay, hf]
@@ -2184,7 +2233,7 @@ theorem payload_getMV (cfg : Cfg) (e : Event) (st : Store) (a : Addr) (ha : User
 /-- **One event, the whole row.** The MultiValue read at any address of a user metric after ApplyMetric is the row
     update of the event applied `hitsN` times to what was read before — for every aggregate at once. -/
 theorem applyEvent_rowMV (cfg : Cfg) (st : Store) (e : Event) (a : Addr) (wf : WF e) (ha : UserAddr a) :
-    getMV (applyEvent cfg st e) a = (evFn cfg.metric.pct e)^[hitsN cfg e a] (getMV st a) := by
+    getMV (applyEvent cfg st e) a = (evFn cfg.legacy cfg.metric.pct e)^[hitsN cfg e a] (getMV st a) := by
   unfold hitsN
   by_cases hv : verdict cfg e = 0
   · simp only [hv, ne_eq, not_true_eq_false, if_false]
@@ -2217,7 +2266,7 @@ theorem applyEvent_rowMV (cfg : Cfg) (st : Store) (e : Event) (a : Addr) (wf : W
     row updates (each applied 0, 1 or 2 times); rejected events and events addressed elsewhere are the identity. -/
 theorem applyAll_rowMV (cfg : Cfg) (st : Store) (evs : List Event) (a : Addr) (hwf : ∀ e ∈ evs, WF e) (ha : UserAddr a) :
     getMV (applyAll cfg st evs) a =
-      evs.foldl (fun mv e => (evFn cfg.metric.pct e)^[hitsN cfg e a] mv) (getMV st a) := by
+      evs.foldl (fun mv e => (evFn cfg.legacy cfg.metric.pct e)^[hitsN cfg e a] mv) (getMV st a) := by
   induction evs generalizing st with
   | nil => rfl
   | cons e es ih =>
@@ -2268,15 +2317,20 @@ theorem mvApplyUnique_eq (hashes : List Int) (c : Rat) (mv : MV) (hl : hashes.le
       { mergeVals (uniqPairs hashes) c (hashes.length : Rat) mv with uniq := hashes.foldl insertUniq mv.uniq } := by
   unfold mvApplyUnique mergeVals uniqPairs; simp only [if_neg hl]
 
-/-- **One row update, every other aggregate.** (ValueSet, ValueMin) and (ValueSet, ValueMax) are the running min/max
-    folded over the event's values; the sum of squares grows by `evSq`; the unique set gets the event's hashes inserted;
-    the TDigest flag is never cleared and, for a metric without percentiles, never set. -/
-theorem evFn_fields (pct : Bool) (e : Event) (mv : MV) :
-    ((evFn pct e mv).set, (evFn pct e mv).min) = (evVals e).foldl minStep (mv.set, mv.min) ∧
-    ((evFn pct e mv).set, (evFn pct e mv).max) = (evVals e).foldl maxStep (mv.set, mv.max) ∧
-    (evFn pct e mv).sq = mv.sq + evSq e ∧
-    (evFn pct e mv).uniq = (evUniq e).foldl insertUniq mv.uniq ∧
-    (pct = false → (evFn pct e mv).td = mv.td) ∧ (mv.td = true → (evFn pct e mv).td = true) := by
+theorem mvApplyValuesLegacy_eq (pct : Bool) (vals : List (Rat × Rat)) (c t : Rat) (mv : MV) (ht : ¬ t ≤ 0) :
+    mvApplyValuesLegacy pct vals c t mv =
+      if pct = true then { mergeVals vals c t mv with td := true } else mergeVals vals c t mv := by
+  unfold mvApplyValuesLegacy mergeVals; simp only [if_neg ht]
+
+/-- **One row update, every other aggregate** (both value-application modes). (ValueSet, ValueMin) and (ValueSet,
+    ValueMax) are the running min/max folded over the event's values; the sum of squares grows by `evSq`; the unique set
+    gets the event's hashes inserted; the TDigest flag is never cleared and, for a metric without percentiles, never set. -/
+theorem evFn_fields (lg pct : Bool) (e : Event) (mv : MV) :
+    ((evFn lg pct e mv).set, (evFn lg pct e mv).min) = (evVals e).foldl minStep (mv.set, mv.min) ∧
+    ((evFn lg pct e mv).set, (evFn lg pct e mv).max) = (evVals e).foldl maxStep (mv.set, mv.max) ∧
+    (evFn lg pct e mv).sq = mv.sq + evSq e ∧
+    (evFn lg pct e mv).uniq = (evUniq e).foldl insertUniq mv.uniq ∧
+    (pct = false → (evFn lg pct e mv).td = mv.td) ∧ (mv.td = true → (evFn lg pct e mv).td = true) := by
   unfold evFn payFn evVals evSq evUniq
   by_cases hu : e.uniq.length ≠ 0
   · simp only [if_pos hu]
@@ -2295,17 +2349,26 @@ theorem evFn_fields (pct : Bool) (e : Event) (mv : MV) :
       · simp only [if_pos hc]; simp
       · simp only [if_neg hc]
         by_cases ht : histTotal e.values e.hist ≤ 0
-        · simp only [if_pos ht, mvApplyValues]; simp
+        · simp only [if_pos ht, valuesFn, mvApplyValues, mvApplyValuesLegacy]; cases lg <;> simp
         · simp only [if_neg ht]
           have ht' : histTotal e.values e.hist ≠ 0 := fun h => ht (le_of_eq h)
           obtain ⟨m1, m2, m3, m4, m5⟩ := mergeVals_fields (valuePairs e.values e.hist)
             (effCount e.counter.toRat (histTotal e.values e.hist)) (histTotal e.values e.hist) mv (valuePairs_ne_nil _ _ hv) ht'
-          rw [mvApplyValues_eq _ _ _ _ _ ht]
-          split
-          · rename_i htd
-            refine ⟨m1, m2, m3, m4, ?_, fun _ => rfl⟩
-            intro hp; rw [hp] at htd; simp at htd
-          · exact ⟨m1, m2, m3, m4, fun _ => m5, fun h => m5.trans h⟩
+          cases lg
+          · simp only [valuesFn, Bool.false_eq_true, if_false]
+            rw [mvApplyValues_eq _ _ _ _ _ ht]
+            split
+            · rename_i htd
+              refine ⟨m1, m2, m3, m4, ?_, fun _ => rfl⟩
+              intro hp; rw [hp] at htd; simp at htd
+            · exact ⟨m1, m2, m3, m4, fun _ => m5, fun h => m5.trans h⟩
+          · simp only [valuesFn, if_true]
+            rw [mvApplyValuesLegacy_eq _ _ _ _ _ ht]
+            split
+            · rename_i hp
+              refine ⟨m1, m2, m3, m4, ?_, fun _ => rfl⟩
+              intro hp'; rw [hp'] at hp; cases hp
+            · exact ⟨m1, m2, m3, m4, fun _ => m5, fun h => m5.trans h⟩
     · simp only [if_neg hv]
       by_cases hc : e.counter.toRat ≤ 0
       · simp only [if_pos hc]; simp
@@ -2356,8 +2419,8 @@ theorem applyAll_row_min (cfg : Cfg) (st : Store) (evs : List Event) (a : Addr) 
   rw [foldl_proj evs _ (fun mv => (mv.set, mv.min)) (fun s e => ((List.replicate (hitsN cfg e a) (evVals e)).flatten).foldl minStep s)]
   · unfold rowVals; rw [foldl_flatMap]
   · intro mv e
-    rw [iterate_proj (evFn cfg.metric.pct e) (fun mv => (mv.set, mv.min)) (fun s => (evVals e).foldl minStep s)
-      (fun mv => (evFn_fields cfg.metric.pct e mv).1)]
+    rw [iterate_proj (evFn cfg.legacy cfg.metric.pct e) (fun mv => (mv.set, mv.min)) (fun s => (evVals e).foldl minStep s)
+      (fun mv => (evFn_fields cfg.legacy cfg.metric.pct e mv).1)]
     exact iterate_foldl minStep _ _ _
 
 /-- **Max over every event list.** -/
@@ -2368,8 +2431,8 @@ theorem applyAll_row_max (cfg : Cfg) (st : Store) (evs : List Event) (a : Addr) 
   rw [foldl_proj evs _ (fun mv => (mv.set, mv.max)) (fun s e => ((List.replicate (hitsN cfg e a) (evVals e)).flatten).foldl maxStep s)]
   · unfold rowVals; rw [foldl_flatMap]
   · intro mv e
-    rw [iterate_proj (evFn cfg.metric.pct e) (fun mv => (mv.set, mv.max)) (fun s => (evVals e).foldl maxStep s)
-      (fun mv => (evFn_fields cfg.metric.pct e mv).2.1)]
+    rw [iterate_proj (evFn cfg.legacy cfg.metric.pct e) (fun mv => (mv.set, mv.max)) (fun s => (evVals e).foldl maxStep s)
+      (fun mv => (evFn_fields cfg.legacy cfg.metric.pct e mv).2.1)]
     exact iterate_foldl maxStep _ _ _
 
 /-- **Unique set over every event list**: the hashes of the accepted unique events addressed to the row, inserted in
@@ -2380,8 +2443,8 @@ theorem applyAll_row_uniq (cfg : Cfg) (st : Store) (evs : List Event) (a : Addr)
   rw [foldl_proj evs _ (fun mv => mv.uniq) (fun s e => ((List.replicate (hitsN cfg e a) (evUniq e)).flatten).foldl insertUniq s)]
   · unfold rowUniq; rw [foldl_flatMap]
   · intro mv e
-    rw [iterate_proj (evFn cfg.metric.pct e) (fun mv => mv.uniq) (fun s => (evUniq e).foldl insertUniq s)
-      (fun mv => (evFn_fields cfg.metric.pct e mv).2.2.2.1)]
+    rw [iterate_proj (evFn cfg.legacy cfg.metric.pct e) (fun mv => mv.uniq) (fun s => (evUniq e).foldl insertUniq s)
+      (fun mv => (evFn_fields cfg.legacy cfg.metric.pct e mv).2.2.2.1)]
     exact iterate_foldl insertUniq _ _ _
 
 /-- as a set: a hash is in the row iff it was there before or some accepted unique event addressed to the row carried
@@ -2408,8 +2471,8 @@ theorem applyAll_row_sq (cfg : Cfg) (st : Store) (evs : List Event) (a : Addr) (
     | nil => simp
     | cons e es ih => rw [List.foldl_cons, ih (fun y hy => hwf y (List.mem_cons_of_mem _ hy))]; simp only [List.map_cons, List.sum_cons]; ring
   · intro mv e
-    rw [iterate_proj (evFn cfg.metric.pct e) (fun mv => mv.sq) (fun s => s + evSq e)
-      (fun mv => (evFn_fields cfg.metric.pct e mv).2.2.1)]
+    rw [iterate_proj (evFn cfg.legacy cfg.metric.pct e) (fun mv => mv.sq) (fun s => s + evSq e)
+      (fun mv => (evFn_fields cfg.legacy cfg.metric.pct e mv).2.2.1)]
     exact iterate_add_const _ _ _
 
 /-- **Percentile (TDigest) flag over every event list**: never cleared; for a metric without percentiles never set. -/
@@ -2418,14 +2481,14 @@ theorem applyAll_row_td (cfg : Cfg) (st : Store) (evs : List Event) (a : Addr) (
     (cfg.metric.pct = false → (getMV (applyAll cfg st evs) a).td = (getMV st a).td) := by
   rw [applyAll_rowMV cfg st evs a hwf ha]
   generalize getMV st a = mv
-  have hmono : ∀ (e : Event) (n : Nat) (mv : MV), mv.td = true → ((evFn cfg.metric.pct e)^[n] mv).td = true := by
+  have hmono : ∀ (e : Event) (n : Nat) (mv : MV), mv.td = true → ((evFn cfg.legacy cfg.metric.pct e)^[n] mv).td = true := by
     intro e n; induction n with
     | zero => intro mv h; exact h
-    | succ k ih => intro mv h; rw [Function.iterate_succ_apply]; exact ih _ ((evFn_fields cfg.metric.pct e mv).2.2.2.2.2 h)
-  have hconst : cfg.metric.pct = false → ∀ (e : Event) (n : Nat) (mv : MV), ((evFn cfg.metric.pct e)^[n] mv).td = mv.td := by
+    | succ k ih => intro mv h; rw [Function.iterate_succ_apply]; exact ih _ ((evFn_fields cfg.legacy cfg.metric.pct e mv).2.2.2.2.2 h)
+  have hconst : cfg.metric.pct = false → ∀ (e : Event) (n : Nat) (mv : MV), ((evFn cfg.legacy cfg.metric.pct e)^[n] mv).td = mv.td := by
     intro hp e n; induction n with
     | zero => intro mv; rfl
-    | succ k ih => intro mv; rw [Function.iterate_succ_apply, ih, (evFn_fields cfg.metric.pct e mv).2.2.2.2.1 hp]
+    | succ k ih => intro mv; rw [Function.iterate_succ_apply, ih, (evFn_fields cfg.legacy cfg.metric.pct e mv).2.2.2.2.1 hp]
   constructor
   · intro h
     induction evs generalizing mv with
@@ -2440,7 +2503,7 @@ theorem applyAll_row_td (cfg : Cfg) (st : Store) (evs : List Event) (a : Addr) (
     was set before, or the metric has percentiles and the merged row has two different values (min ≠ max) -/
 theorem evFn_td_values (pct : Bool) (e : Event) (mv : MV) (hu : e.uniq.length = 0) (hv : e.hist.length + e.values.length ≠ 0)
     (hc : 0 < effCount e.counter.toRat (histTotal e.values e.hist)) (ht : 0 < histTotal e.values e.hist) :
-    (evFn pct e mv).td = (mv.td || (pct && (evFn pct e mv).min != (evFn pct e mv).max)) := by
+    (evFn false pct e mv).td = (mv.td || (pct && (evFn false pct e mv).min != (evFn false pct e mv).max)) := by
   have hc' : ¬ effCount e.counter.toRat (histTotal e.values e.hist) ≤ 0 := by linarith
   have ht' : ¬ histTotal e.values e.hist ≤ 0 := by linarith
   have ht'' : histTotal e.values e.hist ≠ 0 := ne_of_gt ht
@@ -2448,7 +2511,7 @@ theorem evFn_td_values (pct : Bool) (e : Event) (mv : MV) (hu : e.uniq.length = 
     (effCount e.counter.toRat (histTotal e.values e.hist)) (histTotal e.values e.hist) mv (valuePairs_ne_nil _ _ hv) ht''
   have hu' : ¬ e.uniq.length ≠ 0 := by simp [hu]
   unfold evFn payFn
-  simp only [if_neg hu', if_pos hv, if_neg hc']
+  simp only [if_neg hu', if_pos hv, if_neg hc', valuesFn, Bool.false_eq_true, if_false]
   rw [mvApplyValues_eq _ _ _ _ _ ht']
   split
   · rename_i h; simp [h]
@@ -2458,7 +2521,22 @@ theorem evFn_td_values (pct : Bool) (e : Event) (mv : MV) (hu : e.uniq.length = 
         (effCount e.counter.toRat (histTotal e.values e.hist)) (histTotal e.values e.hist) mv).max) = false := by simpa using h
     rw [h', Bool.or_false]; exact m5
 
-
+/-- … and in the legacy mode (Config.LegacyApplyValues): the TDigest is created whenever the metric has percentiles -/
+theorem evFn_td_values_legacy (pct : Bool) (e : Event) (mv : MV) (hu : e.uniq.length = 0) (hv : e.hist.length + e.values.length ≠ 0)
+    (hc : 0 < effCount e.counter.toRat (histTotal e.values e.hist)) (ht : 0 < histTotal e.values e.hist) :
+    (evFn true pct e mv).td = (mv.td || pct) := by
+  have hc' : ¬ effCount e.counter.toRat (histTotal e.values e.hist) ≤ 0 := by linarith
+  have ht' : ¬ histTotal e.values e.hist ≤ 0 := by linarith
+  have ht'' : histTotal e.values e.hist ≠ 0 := ne_of_gt ht
+  obtain ⟨_, _, _, _, m5⟩ := mergeVals_fields (valuePairs e.values e.hist)
+    (effCount e.counter.toRat (histTotal e.values e.hist)) (histTotal e.values e.hist) mv (valuePairs_ne_nil _ _ hv) ht''
+  have hu' : ¬ e.uniq.length ≠ 0 := by simp [hu]
+  unfold evFn payFn
+  simp only [if_neg hu', if_pos hv, if_neg hc', valuesFn, if_true]
+  rw [mvApplyValuesLegacy_eq _ _ _ _ _ ht']
+  cases pct
+  · simp only [Bool.false_eq_true, if_false, Bool.or_false]; exact m5
+  · simp
 
 /-! ### every status row (ok, warnings, errors, clamped-future) over all event lists -/
 
@@ -2514,7 +2592,7 @@ theorem shardApply_get_other_metric (cfg : Cfg) (st : Store) (k : EvKey) (sh dro
 /-- 1 if the accepted event `e` writes its clamped-future warning to `a` (first shard only, timestamp more than
     `futureSlots` seconds ahead, the shard did not return early), else 0 -/
 def clampHit (cfg : Cfg) (e : Event) (a : Addr) : Rat :=
-  if verdict cfg e = 0 ∧ (payFn cfg.metric.pct e).isSome = true ∧
+  if verdict cfg e = 0 ∧ (payFn cfg.legacy cfg.metric.pct e).isSome = true ∧
       (resolveTs cfg.now cfg.metric.res (eventTs cfg e)).2 = true ∧ a = clampAddr cfg (evKey cfg e) (shard1 cfg)
   then 1 else 0
 
@@ -2532,10 +2610,10 @@ theorem payload_get_status_cnt (cfg : Cfg) (e : Event) (st : Store) (a : Addr) (
     (hm : a.metric ≠ (evKey cfg e).metric) :
     (getMV ((payload cfg e).foldl (runEffect cfg) (st, evKey cfg e)).1 a).cnt =
       (getMV st a).cnt +
-        (if (payFn cfg.metric.pct e).isSome = true ∧ (resolveTs cfg.now cfg.metric.res (eventTs cfg e)).2 = true ∧
+        (if (payFn cfg.legacy cfg.metric.pct e).isSome = true ∧ (resolveTs cfg.now cfg.metric.res (eventTs cfg e)).2 = true ∧
             a = clampAddr cfg (evKey cfg e) (shard1 cfg) then 1 else 0) := by
   rw [payload_eq]
-  cases hf : payFn cfg.metric.pct e with
+  cases hf : payFn cfg.legacy cfg.metric.pct e with
   | none =>
     have hid : ∀ s sh drop, runEffect cfg s (payEffect e sh drop) = s := by
       intro s sh drop; rw [runEffect_pay, hf]
@@ -2655,7 +2733,7 @@ theorem applyAllH_status_row (cfg : Cfg) (st : Store) (evs : List Event) (a : Ad
 /-- the whole row for every sharding strategy -/
 theorem applyAllH_rowMV (cfg : Cfg) (st : Store) (evs : List Event) (a : Addr) (hwf : ∀ e ∈ evs, WF e) (ha : UserAddr a) :
     getMV (applyAllH cfg st evs) a =
-      evs.foldl (fun mv e => (evFn (effCfg cfg e).metric.pct e)^[hitsN (effCfg cfg e) e a] mv) (getMV st a) := by
+      evs.foldl (fun mv e => (evFn (effCfg cfg e).legacy (effCfg cfg e).metric.pct e)^[hitsN (effCfg cfg e) e a] mv) (getMV st a) := by
   induction evs generalizing st with
   | nil => rfl
   | cons e es ih =>
@@ -2705,6 +2783,146 @@ def exWarnAddr : Addr := statusAddr exCfg 1 statusMetricID statusMetricRes 0 (st
 example : exWarnAddr.metric = statusMetricID ∧ codeOf exWarnAddr = stWarnMapTagNameNotFound := by decide +kernel
 example : (getMV (applyAll exCfg [] [{ exEvent with tags := [exTag, exUnknownTag] }, exEvent, { exEvent with tags := [exUnknownTag] }]) exWarnAddr).cnt = 2 := by
   decide +kernel
+
+
+
+
+/-! ### the legacy value-application mode (Config.LegacyApplyValues) contributes exactly like the default mode -/
+
+/-- equality of every aggregate of a row except the TDigest flag -/
+def EqButTd (a b : MV) : Prop :=
+  a.cnt = b.cnt ∧ a.set = b.set ∧ a.min = b.min ∧ a.max = b.max ∧ a.sum = b.sum ∧ a.sq = b.sq ∧ a.uniq = b.uniq
+
+theorem EqButTd.refl (a : MV) : EqButTd a a := ⟨rfl, rfl, rfl, rfl, rfl, rfl, rfl⟩
+
+theorem addCount_congr (c : Rat) (a b : MV) (h : EqButTd a b) : EqButTd (addCount c a) (addCount c b) := by
+  obtain ⟨h1, h2, h3, h4, h5, h6, h7⟩ := h
+  unfold addCount
+  rw [h1]
+  split
+  · exact ⟨h1, h2, h3, h4, h5, h6, h7⟩
+  · split
+    · exact ⟨rfl, h2, h3, h4, h5, h6, h7⟩
+    · exact ⟨rfl, h2, h3, h4, h5, h6, h7⟩
+
+theorem mvMerge_congr (o a b : MV) (h : EqButTd a b) : EqButTd (mvMerge a o) (mvMerge b o) := by
+  obtain ⟨g1, g2, g3, g4, g5, g6, g7⟩ := addCount_congr o.cnt a b h
+  unfold mvMerge
+  simp only
+  split
+  · exact ⟨g1, g2, g3, g4, g5, g6, g7⟩
+  · refine ⟨g1, rfl, ?_, ?_, ?_, ?_, g7⟩
+    · simp only [g2, g3]
+    · simp only [g2, g4]
+    · simp only [g5]
+    · simp only [g6]
+
+theorem setTd_eqButTd (m : MV) (b : Bool) : EqButTd { m with td := b } m := ⟨rfl, rfl, rfl, rfl, rfl, rfl, rfl⟩
+
+theorem EqButTd.trans {a b c : MV} (h1 : EqButTd a b) (h2 : EqButTd b c) : EqButTd a c :=
+  ⟨h1.1.trans h2.1, h1.2.1.trans h2.2.1, h1.2.2.1.trans h2.2.2.1, h1.2.2.2.1.trans h2.2.2.2.1,
+   h1.2.2.2.2.1.trans h2.2.2.2.2.1, h1.2.2.2.2.2.1.trans h2.2.2.2.2.2.1, h1.2.2.2.2.2.2.trans h2.2.2.2.2.2.2⟩
+
+theorem EqButTd.symm {a b : MV} (h : EqButTd a b) : EqButTd b a :=
+  ⟨h.1.symm, h.2.1.symm, h.2.2.1.symm, h.2.2.2.1.symm, h.2.2.2.2.1.symm, h.2.2.2.2.2.1.symm, h.2.2.2.2.2.2.symm⟩
+
+/-- both modes, on rows that agree except for the flag, give rows that agree except for the flag -/
+theorem valuesFn_congr (lg lg' pct : Bool) (vals : List (Rat × Rat)) (c t : Rat) (a b : MV) (h : EqButTd a b) :
+    EqButTd (valuesFn lg pct vals c t a) (valuesFn lg' pct vals c t b) := by
+  have core := mvMerge_congr (scale c t (tmpOf c vals)) a b h
+  have e1 : ∀ (l : Bool) (x : MV), EqButTd (valuesFn l pct vals c t x) (if t ≤ 0 then x else mvMerge x (scale c t (tmpOf c vals))) := by
+    intro l x
+    unfold valuesFn mvApplyValues mvApplyValuesLegacy
+    by_cases ht : t ≤ 0
+    · simp only [if_pos ht]; split <;> exact EqButTd.refl _
+    · simp only [if_neg ht]
+      split
+      · split
+        · exact setTd_eqButTd _ _
+        · exact EqButTd.refl _
+      · split
+        · exact setTd_eqButTd _ _
+        · exact EqButTd.refl _
+  refine (e1 lg a).trans (EqButTd.trans ?_ (e1 lg' b).symm)
+  by_cases ht : t ≤ 0
+  · simp only [if_pos ht]; exact h
+  · simp only [if_neg ht]; exact core
+
+/-- **`legacy_eq_default`.** MultiValue.ApplyValuesLegacy and MultiValue.ApplyValues give the same count, sum, min, max,
+    sum of squares and unique set for every row and every argument (so the same count and average contribution for every
+    accepted event); they differ at most in when the TDigest is created, and not at all for metrics without percentiles. -/
+theorem legacy_eq_default (pct : Bool) (vals : List (Rat × Rat)) (c t : Rat) (mv : MV) :
+    EqButTd (mvApplyValuesLegacy pct vals c t mv) (mvApplyValues pct vals c t mv) ∧
+    (pct = false → mvApplyValuesLegacy pct vals c t mv = mvApplyValues pct vals c t mv) := by
+  refine ⟨valuesFn_congr true false pct vals c t mv mv (EqButTd.refl mv), ?_⟩
+  intro hp
+  subst hp
+  unfold mvApplyValuesLegacy mvApplyValues
+  split
+  · rfl
+  · simp
+
+theorem mvApplyUnique_congr (hashes : List Int) (c : Rat) (a b : MV) (h : EqButTd a b) :
+    EqButTd (mvApplyUnique hashes c a) (mvApplyUnique hashes c b) := by
+  unfold mvApplyUnique
+  split
+  · exact h
+  · obtain ⟨g1, g2, g3, g4, g5, g6, _⟩ := mvMerge_congr (scale c (hashes.length : Rat) (tmpOf c (hashes.map (fun (h : Int) => ((h : Rat), (1 : Rat)))))) a b h
+    exact ⟨g1, g2, g3, g4, g5, g6, by simp only [h.2.2.2.2.2.2]⟩
+
+/-- the row update of an event in either mode -/
+theorem evFn_congr (lg lg' pct : Bool) (e : Event) (a b : MV) (h : EqButTd a b) :
+    EqButTd (evFn lg pct e a) (evFn lg' pct e b) := by
+  unfold evFn payFn
+  by_cases hu : e.uniq.length ≠ 0
+  · simp only [if_pos hu]
+    by_cases hc : effCount e.counter.toRat (e.uniq.length : Rat) ≤ 0
+    · simp only [if_pos hc]; exact h
+    · simp only [if_neg hc]; exact mvApplyUnique_congr _ _ _ _ h
+  · simp only [if_neg hu]
+    by_cases hv : e.hist.length + e.values.length ≠ 0
+    · simp only [if_pos hv]
+      by_cases hc : effCount e.counter.toRat (histTotal e.values e.hist) ≤ 0
+      · simp only [if_pos hc]; exact h
+      · simp only [if_neg hc]; exact valuesFn_congr lg lg' pct _ _ _ _ _ h
+    · simp only [if_neg hv]
+      by_cases hc : e.counter.toRat ≤ 0
+      · simp only [if_pos hc]; exact h
+      · simp only [if_neg hc]; exact addCount_congr _ _ _ h
+
+theorem iterate_congr (lg lg' pct : Bool) (e : Event) (n : Nat) (a b : MV) (h : EqButTd a b) :
+    EqButTd ((evFn lg pct e)^[n] a) ((evFn lg' pct e)^[n] b) := by
+  induction n generalizing a b with
+  | zero => exact h
+  | succ k ih => rw [Function.iterate_succ_apply, Function.iterate_succ_apply]; exact ih _ _ (evFn_congr lg lg' pct e a b h)
+
+/-- the same agent configuration with the legacy value-application mode switched on -/
+def legacyOf (cfg : Cfg) : Cfg := { cfg with legacy := true }
+
+/-- **Every event list: the legacy mode records the same rows.** Feed the same events to an agent in the default mode
+    and to one in the legacy mode, starting from stores whose user rows agree up to the TDigest flag: afterwards every
+    row of every user metric has the same count, sum (hence average), min, max, sum of squares and unique set. -/
+theorem legacy_rows_eq_default (cfg : Cfg) (st stL : Store) (evs : List Event) (a : Addr)
+    (hwf : ∀ e ∈ evs, WF e) (ha : UserAddr a) (hl : cfg.legacy = false) (h0 : EqButTd (getMV stL a) (getMV st a)) :
+    EqButTd (getMV (applyAll (legacyOf cfg) stL evs) a) (getMV (applyAll cfg st evs) a) := by
+  rw [applyAll_rowMV (legacyOf cfg) stL evs a hwf ha, applyAll_rowMV cfg st evs a hwf ha]
+  generalize getMV stL a = x at h0 ⊢
+  generalize getMV st a = y at h0 ⊢
+  induction evs generalizing x y with
+  | nil => exact h0
+  | cons e es ih =>
+    simp only [List.foldl_cons]
+    apply ih (fun z hz => hwf z (List.mem_cons_of_mem _ hz))
+    have hh : hitsN (legacyOf cfg) e a = hitsN cfg e a := rfl
+    rw [hh]
+    exact iterate_congr _ _ _ e _ x y h0
+
+example : legacyOf exCfg ≠ exCfg ∧ exCfg.legacy = false := by decide +kernel
+/-- the example event in the legacy mode: same count 8 and sum 36, TDigest created -/
+example : (getMV (applyAll (legacyOf exCfg) [] [exEvent]) (addr1 exCfg exEvent)).cnt = 8 ∧
+    (getMV (applyAll (legacyOf exCfg) [] [exEvent]) (addr1 exCfg exEvent)).sum = 36 ∧
+    (getMV (applyAll (legacyOf exCfg) [] [exEvent2]) (addr1 exCfg exEvent)).td = true ∧
+    (getMV (applyAll exCfg [] [exEvent2]) (addr1 exCfg exEvent)).td = false := by decide +kernel
 
 
 end SH.Props.C12
